@@ -53,6 +53,7 @@ def _run_one(args):
                        record_queries=opts.get("record_queries", 0),
                        seed=opts.get("seed", 0) + hash(json.dumps(shape, sort_keys=True)) % 1000003,
                        prefix=shape.get("_split", ()))
+        ctx.max_degree = opts.get("max_degree")
         signal.signal(signal.SIGALRM, _alarm)
         signal.alarm(int(opts.get("instance_timeout_s", 3000)))
         try:
